@@ -210,8 +210,35 @@ var richMap = map[byte]string{
 	'd': "dé", 'x': "x世", 'y': "y~'", 'z': "zü",
 }
 
-// Key maps an abstract key (bytes) to the concrete key.
+// padKey extends base with '/'-separated segments of 'p' to exactly total bytes.
+func padKey(base string, total int) string {
+	// (the first padding byte is '-', so that the padded key is a sibling of
+	// base and not a path below it: fs backends cannot hold both "d/k" and "d/k/x")
+	s := base + "-"
+	for len(s) < total {
+		remain := total - len(s)
+		if remain == 1 {
+			s += "p"
+			break
+		}
+		seg := remain - 1
+		if seg > 200 {
+			seg = 200
+		}
+		s += "/" + strings.Repeat("p", seg)
+	}
+	return s
+}
+
+// Key maps an abstract key (bytes) to the concrete key.  A trailing '!' asks
+// for a key of exactly 1024 bytes (the limit), '!!' for 1025 bytes.
 func (c *Conc) Key(k string) string {
+	if strings.HasSuffix(k, "!!") {
+		return padKey(c.Key(strings.TrimSuffix(k, "!!")), 1025)
+	}
+	if strings.HasSuffix(k, "!") {
+		return padKey(c.Key(strings.TrimSuffix(k, "!")), 1024)
+	}
 	if c.keyMode == 0 {
 		return k
 	}
@@ -228,6 +255,11 @@ func (c *Conc) Key(k string) string {
 
 // Unkey is the inverse of Key on keys produced by Key.
 func (c *Conc) Unkey(k string) string {
+	if len(k) == 1024 || len(k) == 1025 {
+		if i := strings.Index(k, "-/pppppppp"); i >= 0 {
+			return c.Unkey(k[:i]) + strings.Repeat("!", len(k)-1023)
+		}
+	}
 	if c.keyMode == 0 {
 		return k
 	}
